@@ -1212,7 +1212,14 @@ class Engine:
             if node.slice.step is not None:
                 raise Unsupported('slice step')
             return self.getslice(obj, lo, hi)
-        return self.getitem(obj, self.eval(node.slice, env))
+        idx = self.eval(node.slice, env)
+        if self.spec_mode and env is getattr(self, 'spec_env', None):
+            self.spec_lenient = True
+            try:
+                return self.getitem(obj, idx)
+            finally:
+                self.spec_lenient = False
+        return self.getitem(obj, idx)
 
     def eval_index(self, sl, env):
         return self.eval(sl, env)
@@ -1645,11 +1652,14 @@ class Engine:
         if extra:
             senv.locals.update(extra)
         saved = self.spec_mode
+        saved_env = getattr(self, 'spec_env', None)
         self.spec_mode = True
+        self.spec_env = senv
         try:
             return self.eval(node, senv)
         finally:
             self.spec_mode = saved
+            self.spec_env = saved_env
 
 
 class VLazy(V):
